@@ -147,6 +147,12 @@ def _parse_datetime_column(values: Iterable, fixer: ParseFixer = None):
                 raise ValueError(f"Illegal value in datetime column {val}")
 
         if not isinstance(val, str):
+            # A number, bool, date &c.: an illegal cell like any other, let the fixer have it
+            if fixer is not None:
+                fixer.table_row = row
+                fix_value = fixer.fix_illegal_cell_value("datetime", val)
+                datetime_values.append(fix_value)
+                continue
             raise ValueError(f"Illegal value in datetime column {val}")
 
         val = val.strip()
